@@ -294,8 +294,33 @@ def run(tier):
             if not scsv_fact:
                 continue
             r = strip(c["r"])
-            arg_ok = r is not None and r.get("k") == "call" and r.get("fn") == "psVerGetHighestTls" and \
-                is_field(r["a"][0], "ssl", "supportedVersions")
+            def highest_of_supported(e):
+                e = strip(e)
+                if e is None or e.get("k") != "call" or not e.get("a"):
+                    return False
+                if e.get("fn") == "psVerGetHighestTls":
+                    return is_field(e["a"][0], "ssl", "supportedVersions")
+                if e.get("fn") == "psVerGetHighest":
+                    # the DTLS arm: highest of (supportedVersions & v_dtls_any), DTLS allowed
+                    a0 = strip(e["a"][0])
+                    return a0 is not None and a0.get("k") == "bin" and a0["op"] == "&" and \
+                        (is_field(a0["l"], "ssl", "supportedVersions") or is_field(a0["r"], "ssl", "supportedVersions")) and \
+                        any((strip(q) or {}).get("k") == "int" and strip(q)["v"] == prog.enums.get("v_dtls_any") for q in (a0["l"], a0["r"]))
+                return False
+            arg_ok = highest_of_supported(r)
+            if not arg_ok and r is not None and r.get("k") == "var" and r.get("sc") == "l":
+                # a local: every definition reaching the comparison is such a call
+                rd3 = cu.reaching_defs(pch)
+                idx3 = next((i_ for i_, l_, x_ in cu.block_exprs(b) if x_ is t["c"]), None)
+                ds3 = cu.defs_at(pch, rd3, b["id"], idx3, r.get("id"))
+                arg_ok = bool(ds3) and all(d[3] is not None and highest_of_supported(d[3]) for d in ds3)
+                dtls_arm = any(d[3] is not None and (strip(d[3]) or {}).get("fn") == "psVerGetHighest" for d in ds3)
+            else:
+                dtls_arm = False
+            if arg_ok and prog.by_name.get("dtlsChkReplayWindow") and not dtls_arm:
+                why3 = "the version compared under the SCSV test (line %s) has no DTLS arm: psVerGetHighestTls() skips the DTLS versions, so for " \
+                       "a DTLS ClientHello the comparison is against `undefined` and an unjustified fallback to DTLS 1.0 is never refused" % t["ln"]
+                continue
             if not arg_ok:
                 why3 = "the version compared under the SCSV test (line %s) is %s, not psVerGetHighestTls(ssl->supportedVersions): " \
                        "masked-out versions make a real fallback look justified" % (t["ln"], pp(r)[:70])
@@ -522,6 +547,7 @@ def run(tier):
     rule_R11(res, prog)
     rule_R12(res, prog)
     rule_R13(res, prog)
+    rule_R14(res, prog)
     return res.finish()
 
 
@@ -982,3 +1008,64 @@ def rule_R13(res, prog):
                                          fn.relfile, ln, r["v"], want, [f for f in facts if "modeVal" in f[0]]), file=fn.relfile, line=ln)
                     res.instance(rid, "tls13ParsePskKeyExchangeModes:%s mode %d under %s" % (ln, r["v"], want), ok, finding=f_)
     res.floor(rid, 2)
+
+
+def rule_R14(res, prog):
+    """'negotiated parameters are ones both sides enabled' on every way a suite is put in force: ssl->cipher is only ever
+    assigned what sslGetCipherSpec() returned for THIS session now (it applies the global and per-session disabled lists and the
+    version limits) - directly, through a local whose every reaching definition is such a call and which was tested non-NULL,
+    or, for a suite pointer kept in stored state (the session cache entry), under the fact that sslGetCipherSpec() accepted its
+    id on this path.  Resumption from the cache used to skip this: a suite disabled after the original handshake came back."""
+    from sa import cfgutil as cu
+    rid = "C07.R14"
+    res.rule(rid, "every suite put in force (ssl->cipher) passed sslGetCipherSpec for this session - also on the resumption paths")
+    n = 0
+    for fn in sorted(prog.functions.values(), key=lambda f: f.qname):
+        if not fn.blocks or not fn.relfile.startswith("matrixssl/") or "/test/" in fn.relfile:
+            continue
+        gf = rd = None
+        for b in fn.blocks:
+            for i, ln, x in cu.block_exprs(b):
+                for m in walk(x):
+                    if not (m.get("k") == "bin" and m["op"] == "="):
+                        continue
+                    l = strip(m["l"])
+                    if l is None or l.get("k") != "mem" or l.get("f") != "cipher" or not cu.ftext(l).endswith("ssl->cipher"):
+                        continue
+                    r = strip(m["r"])
+                    while r is not None and r.get("k") == "cast":
+                        r = strip(r["e"])
+                    n += 1
+                    ok, why = False, ""
+                    if r is not None and r.get("k") == "call" and r.get("fn") == "sslGetCipherSpec":
+                        ok = True
+                    elif r is not None and r.get("k") == "var":
+                        gf = gf or cu.guard_facts(fn)
+                        rd = rd or cu.reaching_defs(fn)
+                        ds = cu.defs_at(fn, rd, b["id"], i, r.get("id"))
+
+                        def is_spec(d):
+                            e = strip(d[3]) if d[3] is not None else None
+                            while e is not None and e.get("k") == "cast":
+                                e = strip(e["e"])
+                            return e is not None and e.get("k") == "call" and e.get("fn") == "sslGetCipherSpec"
+                        fs = gf.get(b["id"], ())
+                        nn = any((txt == r["n"] and tr) or (txt == "(%s == 0)" % r["n"] and not tr) or (txt == "(%s != 0)" % r["n"] and tr) or
+                                 (txt.startswith("(%s = sslGetCipherSpec(" % r["n"]) and tr) for (txt, tr) in fs)
+                        ok = bool(ds) and all(is_spec(d) for d in ds) and nn
+                        why = "the local `%s` is not (only) a tested result of sslGetCipherSpec()" % r["n"]
+                    else:
+                        gf = gf or cu.guard_facts(fn)
+                        fs = gf.get(b["id"], ())
+                        ok = any(("sslGetCipherSpec(" in txt and tr and "==" not in txt) or ("sslGetCipherSpec(" in txt and "== 0" in txt and not tr)
+                                 for (txt, tr) in fs)
+                        why = "`%s` comes from stored state and no sslGetCipherSpec() acceptance holds on the path" % cu.ftext(r)[:50]
+                    f_ = None
+                    if not ok:
+                        f_ = Finding(PROP, rid, fn.name, "suite put in force without asking sslGetCipherSpec",
+                                     "%s:%s %s(): ssl->cipher = %s: %s - a suite the application disabled for this session (or globally), or one "
+                                     "that the negotiated version does not allow, is negotiated again (cache resumption after "
+                                     "matrixSslSetCipherSuiteEnabledStatus(ssl, X, PS_FALSE))" % (fn.relfile, ln, fn.name, cu.ftext(r)[:50], why),
+                                     file=fn.relfile, line=ln)
+                    res.instance(rid, "%s:%s ssl->cipher = %s vetted by sslGetCipherSpec" % (fn.name, ln, cu.ftext(r)[:40]), ok, finding=f_)
+    res.floor(rid, 10)
